@@ -227,6 +227,19 @@ pub fn run_case(c: &Case, st: &mut Stats) -> Result<(), Failure> {
                 let i = ((f as usize) * r.choices()) >> 16;
                 a.commit(i).map_err(pf)?;
                 b.commit(i).map_err(pf)?;
+                // what the commit did to the learned-selection store is behaviour too: the entry of the
+                // committed word must be the same in both user directories (other entries may differ by
+                // derived entries that only the older context has cached)
+                let key = crate::model::ref_split(&w, false).1;
+                let (sa, sb2) = (sb.parsed_selections().unwrap_or_default(), copy.parsed_selections().unwrap_or_default());
+                if sa.get(&key) != sb2.get(&key) {
+                    return Err(fail(
+                        "commit-effect-differs-from-new-context",
+                        format!("H2 word {w:?} committed at index {i} ({} -> {}): the updated context's store has {:?} for {key:?}, the new context's store has {:?}", c.cfg1, c.cfg2, sa.get(&key), sb2.get(&key)),
+                        c,
+                    ));
+                }
+                st.count("store-entry-comparisons", 1);
             }
             _ => {
                 a.finish().map_err(pf)?;
